@@ -469,3 +469,98 @@ Definition premise_C13 (v : val) : bool :=
   | 4%Z => forallb clean_text (v_cll (v_nth 0 d)) && forallb clean_text (v_cll (v_nth 1 d))
   | _ => false
   end.
+
+(** * The texts as the metric functions see them, computed by the model from the RAW strings.
+    Every text function of metrics.rs first does [normalize(&clean(s, true), Normalization::NFKC, true)]
+    (grapheme mode in both calls, whatever [use_graphemes] says) and only then splits the result
+    under the requested [use_graphemes]. [prep] is that, with the models of the segmenter
+    (UAX29_Model), of [clean] (C11_Model) and of the normalisation (NFKC_Model). *)
+From TU Require UAX29_Model NFKC_Model.
+Definition prep (s : str) : str :=
+  NFKC_Model.normalize_model NFKC_Model.NFKC true (C11_Model.clean (UAX29_Model.segment s)).
+(** [CharString::new(s, use_graphemes)] *)
+Definition clusters_of (g : bool) (s : str) : list cluster :=
+  if g then UAX29_Model.segment s else singletons s.
+Definition text_of (g : bool) (s : str) : list cluster := clusters_of g (prep s).
+
+(** ** KF3 decided on the raw text alone (no normalisation is run):
+    - no cluster of the text mixes White_Space with other code points ([no_mixedb], the domain
+      restriction the property itself makes);
+    - no code point of the text is one of the 52 that NFKC turns into text containing White_Space
+      ([NFKC_Model.nfkc_makes_space]);
+    and, for grapheme mode only (the prepared text is segmented again):
+    - between two words of the text, the first does not end in a Prepend and the second does not
+      begin with Extend / SpacingMark / ZWJ ([seams_ok], = C11_UAX29.seam_free: the U+0020 that
+      [clean] writes stays a cluster of its own). That this is enough AFTER normalisation as well is a
+      theorem (C13_NFKC.v): NFKC changes neither whether a word begins with an attaching code point
+      nor whether it ends in a Prepend. *)
+Definition in_space_set (c : N) : bool := existsb (N.eqb c) NFKC_Model.nfkc_makes_space.
+Definition avoids (s : str) : bool := forallb (fun c => negb (in_space_set c)) s.
+Fixpoint seams_ok (W : list str) : bool :=
+  match W with
+  | w1 :: (w2 :: _) as R =>
+      negb (UAX29_Model.is_prepend (last w1 32%N)) && negb (UAX29_Model.ws_joinable (hd 32%N w2)) && seams_ok R
+  | _ => true
+  end.
+Definition kf3_free (g : bool) (s : str) : bool :=
+  UAX29_Model.no_mixedb s && avoids s && (if g then seams_ok (C11_Model.words s) else true).
+
+(** the class as the harness decides it with the real crate, here on the model's own [prep]:
+    the prepared text is not whitespace-clean or (grapheme mode) has a mixed cluster *)
+Definition kf3_class (g : bool) (s : str) : bool :=
+  let t := prep s in negb (C11_Model.cleansb t && (if g then UAX29_Model.no_mixedb t else true)).
+
+(** ** val glue for the raw texts.
+    input = (fn cfg data raw kf): [data] stays what the harness computed with the real crate (the oracle);
+    [raw] holds the unprocessed strings (fn 2: (seqs targets), fn 3/4: (inputs preds targets));
+    [kf] (fn 3/4) holds per raw text the pair (kf3_free class) as the HARNESS decides them — kf3_free by
+    a Rust transliteration of the definition above, class with the real crate's clean / CharString. *)
+Definition v_strs (v : val) : list str := v_list (v_list v_n) v.
+Definition in_g (v : val) : bool :=
+  let cfg := v_nth 1 v in
+  match v_z (v_nth 0 v) with
+  | 2%Z => v_bool (v_nth 1 cfg)
+  | 3%Z => v_bool (v_nth 3 cfg)
+  | 4%Z => v_bool (v_nth 2 cfg)
+  | _ => false
+  end.
+Definition clusters_v (l : list cluster) : val := list_v (list_v n_v) l.
+Definition is_text_fn (v : val) : bool :=
+  match v_z (v_nth 0 v) with 2%Z | 3%Z | 4%Z => true | _ => false end.
+(** the [data] field as the model computes it from [raw] *)
+Definition model_data (v : val) : val :=
+  if is_text_fn v then
+    match v_nth 3 v with
+    | L fields => L (map (fun f => list_v (fun s => clusters_v (text_of (in_g v) s)) (v_strs f)) fields)
+    | x => x
+    end
+  else v_nth 2 v.
+Definition rawify (v : val) : val := L [v_nth 0 v; v_nth 1 v; model_data v; v_nth 3 v; v_nth 4 v].
+(** [prep raw = oracle] for every text *)
+Definition prep_agree (v : val) : bool := val_eqb (model_data v) (v_nth 2 v).
+
+Definition kf_flags (v : val) : val :=
+  match v_z (v_nth 0 v) with
+  | 3%Z | 4%Z =>
+    match v_nth 3 v with
+    | L fields =>
+      L (map (fun f => list_v (fun s => L [bool_v (kf3_free (in_g v) s); bool_v (kf3_class (in_g v) s)]) (v_strs f)) fields)
+    | x => x
+    end
+  | _ => L []
+  end.
+Definition kf_agree (v : val) : bool := val_eqb (kf_flags v) (v_nth 4 v).
+
+(** premise of [check_run_n]: for the spelling metric, inputs and predictions are [kf3_free] *)
+Definition premise_n (v : val) : bool :=
+  let r := v_nth 3 v in
+  match v_z (v_nth 0 v) with
+  | 0%Z | 1%Z | 2%Z | 3%Z => true
+  | 4%Z => forallb (kf3_free (in_g v)) (v_strs (v_nth 0 r)) && forallb (kf3_free (in_g v)) (v_strs (v_nth 1 r))
+  | _ => false
+  end.
+
+(** the model on the raw texts; the correspondence demands in addition that the model's own
+    preparation of every raw text is the oracle and that the harness' two flags per text are the model's *)
+Definition run_C13N (v : val) : val := run_C13 (rawify v).
+Definition agree_C13N (v m i : val) : bool := prep_agree v && kf_agree v && agree_C13 v m i.
